@@ -364,6 +364,7 @@ func (self *PathNode) scanChildren(p *binary.BinaryProtocol, recurse bool, opts 
 		// set map key type and value type
 		self.kt = keyDesc.Type() // map key type only support int/string
 		self.et = valueDesc.Type()
+		self.size = 0 // counted below; the node may come with its size (GetByPath) or from an earlier Load
 		mapNumber := desc.BaseId()
 		for p.Read < len(p.Buf) {
 			pairNumber, _, pairTagLen, pairTagErr := p.ConsumeTagWithoutMove()
